@@ -180,7 +180,10 @@ func c13Violate(c *Ctx, v Violation) {
 
 // ------------------------------------------------------------------ error classes
 
-var reParseIdx = regexp.MustCompile(`failed to parse expression (\d+) \(expected`)
+// the index of the expression the external parser rejected, as the library reports it; the
+// wording around the number is not relied upon beyond "expression <n>" ("failed to parse
+// expression 3 (expected 5 …", "cannot parse expression #3: …" both match)
+var reParseIdx = regexp.MustCompile(`(?i)pars\w*\s+(?:of\s+)?expression\s+#?(\d+)`)
 
 func decErr(err error) string {
 	var se *message.ErrStringSizeExceeded
@@ -191,6 +194,8 @@ func decErr(err error) string {
 		return "sizeExceeded"
 	case errors.Is(err, errWireExhausted), has("c13: wire exhausted"):
 		return "eof"
+	case has("invalid EOF marker"), has("invalid file size data"):
+		return "malformed" // (GetFile: "EOF" here is the name of the end-of-file frame, not a read error)
 	case has("failed to read frame header"), has("failed to read message data"), has("read CEDAR frame"):
 		return "eof"
 	case errors.Is(err, io.EOF):
@@ -208,7 +213,12 @@ func decErr(err error) string {
 	case strings.HasPrefix(m, "EOF"), has(": EOF"):
 		return "eom"
 	}
-	return errClass(err)
+	if c := errClass(err); !strings.HasPrefix(c, "other:") {
+		return c
+	}
+	// wording the harness does not know: "an error", no text in the compared line (diffBatch accepts
+	// "other:" wherever the model also reports an error)
+	return "other:"
 }
 
 // ------------------------------------------------------------------ one decoder under test
@@ -225,6 +235,11 @@ type dworld struct {
 	label   string
 	bad     bool // a violation was recorded for this case
 	tight   bool // the input has no NULL-string markers: the byte budget can be checked exactly
+	nomodel bool // the operation has no counterpart in the Lean model: implementation-side oracle only
+	// bytes of allocation allowed per input byte (default 64). The nested-value family sets 1024: the
+	// expression parser builds an object with its own attribute table per `[a=` (3 input bytes) —
+	// a large constant factor, still linear; a quadratic renderer or parser exceeds it.
+	allocFactor int
 }
 
 type contextT = context.Context
@@ -348,11 +363,18 @@ func (w *dworld) runOp(opp *string, entry string, cap int, f func() (string, err
 		w.log(op, "ok"+r.val+meters)
 	}
 	// steps: string-level operations bounded by the input
-	if !r.spin && r.calls > w.inBytes+8 {
-		w.violate("C13:steps:"+entry, fmt.Sprintf("%s performed %d string-level operations on %d input bytes", entry, r.calls, w.inBytes), fmt.Sprintf("≤ %d", w.inBytes+8), fmt.Sprint(r.calls))
+	// (the count is of stream.IsEncrypted() queries; how many of them one string costs is an internal
+	// matter — the bound leaves room for several per string, the exact count is compared with the
+	// model only, as a correspondence detail)
+	if lim := 4*w.inBytes + 64; !r.spin && r.calls > lim {
+		w.violate("C13:steps:"+entry, fmt.Sprintf("%s performed %d string-level operations on %d input bytes", entry, r.calls, w.inBytes), fmt.Sprintf("≤ %d", lim), fmt.Sprint(r.calls))
 	}
 	// allocation in proportion to the input
-	if lim := uint64(64*w.inBytes + (1 << 20)); r.alloc > lim {
+	af := 64
+	if w.allocFactor > 0 {
+		af = w.allocFactor
+	}
+	if lim := uint64(af*w.inBytes + (1 << 20)); r.alloc > lim {
 		w.violate("C13:alloc:"+entry, fmt.Sprintf("%s allocated %d bytes while decoding %d input bytes", entry, r.alloc, w.inBytes), fmt.Sprintf("≤ %d", lim), fmt.Sprint(r.alloc))
 	}
 	// cap honoured: a capped reader stops taking frames once the cap is exceeded
@@ -516,6 +538,9 @@ func (w *dworld) opRest() {
 
 func (w *dworld) done(cases *[]Case, nontrivial bool) {
 	w.c.Distinct(strings.Join(w.ops, "\n"), nontrivial)
+	if w.nomodel {
+		return
+	}
 	*cases = append(*cases, Case{Label: w.label, Ops: w.ops, Real: w.real})
 }
 
@@ -1238,6 +1263,7 @@ func (w *wworld) op(op, entry string, f func() (string, error)) {
 	if haveHdr {
 		flag, announced = w.conn.In[0], binary.BigEndian.Uint32(w.conn.In[1:5])
 	}
+	firstBad := firstBadFrame(w.conn.In)
 	runtime.ReadMemStats(&m0)
 	func() {
 		defer func() { pv = recover() }()
@@ -1273,6 +1299,35 @@ func (w *wworld) op(op, entry string, f func() (string, error)) {
 	if a, lim := m1.TotalAlloc-m0.TotalAlloc, uint64(16*w.wire+4<<20); a > lim {
 		viol("C13:alloc:"+entry, fmt.Sprintf("%s allocated %d bytes for %d wire bytes", entry, a, w.wire), fmt.Sprintf("≤ %d", lim), fmt.Sprint(a))
 	}
+	// a reader that takes several frames (GetFile, ReceiveCompleteMessage): the first frame of the
+	// unread wire that cannot be delivered decides how it must end. When that frame is an oversize
+	// header, every frame before it is complete and legal, so "ran out of data" can only mean the
+	// reader accepted the oversize header and waited for its payload.
+	if pv == nil && err != nil && (errors.Is(err, io.EOF) || errors.Is(err, io.ErrUnexpectedEOF)) && firstBad == "oversize" {
+		viol("C13:frame-limit:"+entry, fmt.Sprintf("%s ran out of data although the first undeliverable frame of the wire is a header announcing more than %d bytes: the header was accepted and a payload buffer sized from it", entry, stream.MaxMessageSize), "err tooLarge", "err eof")
+	}
+}
+
+// firstBadFrame walks the frames of a wire (reference parser, independent of the library) and
+// names what stops it: "" (the wire ends on a frame boundary), "oversize", "flag", "truncated".
+func firstBadFrame(b []byte) string {
+	for len(b) > 0 {
+		if len(b) < 5 {
+			return "truncated"
+		}
+		n := binary.BigEndian.Uint32(b[1:5])
+		if n > stream.MaxMessageSize {
+			return "oversize"
+		}
+		if b[0] > 10 {
+			return "flag"
+		}
+		if uint64(len(b)-5) < uint64(n) {
+			return "truncated"
+		}
+		b = b[5+int(n):]
+	}
+	return ""
 }
 
 func (w *wworld) recvc() {
@@ -1306,6 +1361,300 @@ func (w *wworld) readmsg() {
 		_ = w.s.EndMessageRead()
 		return showVal(all), nil
 	})
+}
+
+// the frame reader without end flag and its two callers
+func (w *wworld) recvn() {
+	w.op("recvn", "stream.ReceiveFrame", func() (string, error) {
+		v, err := w.s.ReceiveFrame(bg)
+		return showVal(v), err
+	})
+}
+
+func (w *wworld) getsecret() {
+	w.op("getsecret", "stream.GetSecret", func() (string, error) {
+		v, err := w.s.GetSecret(bg)
+		return showVal([]byte(v)), err
+	})
+}
+
+func (w *wworld) getfile() {
+	w.op("getfile", "stream.GetFile", func() (string, error) {
+		dir, err := os.MkdirTemp(workRoot(), "c13f-")
+		if err != nil {
+			return "", err
+		}
+		defer os.RemoveAll(dir)
+		p := filepath.Join(dir, "received")
+		n, err := w.s.GetFile(bg, p)
+		if st, e := os.Stat(p); e == nil && st.Size() > int64(w.wire) {
+			c13Violate(w.c, Violation{Property: "C13", Key: "C13:file-size:stream.GetFile", What: fmt.Sprintf("GetFile wrote %d bytes to the file from %d wire bytes", st.Size(), w.wire),
+				Ops: append([]string{"# " + w.label}, w.ops...), Expected: fmt.Sprintf("≤ %d", w.wire), Observed: fmt.Sprint(st.Size())})
+		}
+		return fmt.Sprintf(" %d", n), err
+	})
+}
+
+func (w *wworld) api(name string) {
+	switch name {
+	case "recvc":
+		w.recvc()
+	case "readmsg":
+		w.readmsg()
+	case "recvf":
+		w.recvf()
+	case "recvn":
+		w.recvn()
+	case "getsecret":
+		w.getsecret()
+	case "getfile":
+		w.getfile()
+	}
+}
+
+var wireEntry = map[string]string{"recvc": "stream.ReceiveCompleteMessage", "readmsg": "stream.StartMessageRead", "recvf": "stream.ReceiveFrameWithEnd",
+	"recvn": "stream.ReceiveFrame", "getsecret": "stream.GetSecret", "getfile": "stream.GetFile"}
+
+// decodeWireNoEnd: stream.ReceiveFrame — the frame reader behind GetSecret and GetFile — under
+// hostile headers. Headers that could size a buffer of more than 64 MiB go to the child process.
+func decodeWireNoEnd(c *Ctx, cases *[]Case, childJobs *[]childJob) {
+	add := func(w *wworld) {
+		c.Distinct(strings.Join(w.ops, "\n"), true)
+		*cases = append(*cases, Case{Label: w.label, Ops: w.ops, Real: w.real})
+	}
+	run := func(label string, wire []byte, apis ...string) {
+		// the largest length any header position of this wire could announce decides where it runs
+		huge := false
+		for b := wire; len(b) >= 5; {
+			n := binary.BigEndian.Uint32(b[1:5])
+			if n > 1<<26 {
+				huge = true
+			}
+			if uint64(len(b)-5) < uint64(n) {
+				break
+			}
+			b = b[5+int(n):]
+		}
+		if huge && len(apis) == 1 {
+			exp := ""
+			if len(wire) >= 5 && binary.BigEndian.Uint32(wire[1:5]) > stream.MaxMessageSize {
+				exp = "err tooLarge"
+			}
+			*childJobs = append(*childJobs, childJob{Label: label, Kind: "wire", Api: apis[0], Wire: hex.EncodeToString(wire), InBytes: len(wire), Expect: exp})
+			c.Count("wire-noend:child:" + apis[0])
+			return
+		}
+		if huge {
+			return
+		}
+		w := newWWorld(c, label, wire, false)
+		for _, a := range apis {
+			w.api(a)
+		}
+		c.Count("wire-noend:" + apis[0])
+		add(w)
+	}
+	flags := []byte{0, 1, 10, 11, 255}
+	lens := []uint32{0, 1, 7, 8, 9, 1<<20 - 1, 1 << 20, 1<<20 + 1, 1 << 24, 1<<26 + 1, 0x7fffffff, 0x80000000, 0xffffffff}
+	// one header, a short body
+	for _, n := range lens {
+		for _, fl := range flags {
+			if n > 1<<20+1 && fl != 1 && !(fl == 255 && n == 0xffffffff) {
+				continue
+			}
+			for _, bl := range []int{0, 4, 8, 12} {
+				if n > 1<<26 && bl != 0 && bl != 8 {
+					continue // (each of these is a process of its own when the limit is gone)
+				}
+				body := bytes.Repeat([]byte{0x01}, bl)
+				if bl >= 4 {
+					body[bl-1] = 0
+				}
+				wire := wireFrame(fl, n, body)
+				for _, apiName := range []string{"recvn", "getsecret", "getfile"} {
+					run(fmt.Sprintf("noend-header n=%d flag=%d body=%d %s", n, fl, bl, apiName), wire, apiName)
+				}
+			}
+		}
+	}
+	// files: size frame, chunks, end marker — valid, and with one hostile element
+	marker := func(v uint32) []byte { b := make([]byte, 4); binary.BigEndian.PutUint32(b, v); return wireFrame(1, 4, b) }
+	sizes := []int64{0, 1, 3, 10, -1, -1 << 63, 1 << 40, 1<<63 - 1}
+	for _, size := range sizes {
+		for _, shape := range []string{"exact", "short", "over", "empty-chunks", "no-marker", "bad-marker", "marker-len", "size-len", "hostile-chunk", "hostile-chunk-huge", "hostile-marker", "hostile-marker-huge", "flag-chunk"} {
+			var wire []byte
+			sz := be8(size)
+			if shape == "size-len" {
+				sz = sz[:7]
+			}
+			wire = append(wire, wireFrame(1, uint32(len(sz)), sz)...)
+			want := size
+			if want > 10 || want < 0 {
+				want = 6
+			}
+			data := bytes.Repeat([]byte{0x62}, int(want))
+			chunk := func(b []byte) { wire = append(wire, wireFrame(1, uint32(len(b)), b)...) }
+			switch shape {
+			case "short":
+				if len(data) > 0 {
+					chunk(data[:len(data)-1])
+				}
+			case "over":
+				chunk(append(append([]byte{}, data...), 0x63, 0x63))
+			case "empty-chunks":
+				for i := 0; i < 50; i++ {
+					chunk(nil)
+				}
+				chunk(data)
+			case "hostile-chunk":
+				chunk(data[:len(data)/2])
+				wire = append(wire, wireFrame(1, 1<<20+1, []byte("xy"))...)
+			case "hostile-chunk-huge":
+				chunk(data[:len(data)/2])
+				wire = append(wire, wireFrame(1, 0xfffffff0, []byte("xy"))...)
+			case "flag-chunk":
+				chunk(data[:len(data)/2])
+				wire = append(wire, wireFrame(11, 2, []byte("xy"))...)
+			default:
+				for len(data) > 0 {
+					k := 1 + c.Rng.Intn(len(data))
+					chunk(data[:k])
+					data = data[k:]
+				}
+			}
+			switch shape {
+			case "no-marker":
+			case "bad-marker":
+				wire = append(wire, marker(667)...)
+			case "marker-len":
+				wire = append(wire, wireFrame(1, 5, []byte{0, 0, 2, 154, 0})...)
+			case "hostile-marker":
+				wire = append(wire, wireFrame(1, 1<<20+1, []byte{0, 0, 2, 154})...)
+			case "hostile-marker-huge":
+				wire = append(wire, wireFrame(1, 0x80000004, []byte{0, 0, 2, 154})...)
+			default:
+				wire = append(wire, marker(666)...)
+			}
+			wire = append(wire, wireFrame(1, 3, []byte("nx\x00"))...) // what follows the file stays unread
+			run(fmt.Sprintf("noend-file size=%d %s", size, shape), wire, "getfile")
+			c.Count("wire-noend:file:" + shape)
+		}
+	}
+	// random frame sequences read frame by frame / as secrets / as a file
+	for i := 0; i < c.Pick(120, 8000); i++ {
+		var wire []byte
+		nf := 1 + c.Rng.Intn(5)
+		for j := 0; j < nf; j++ {
+			body := randAscii(c, c.Rng.Intn(12))
+			if j == 0 && c.Rng.Intn(2) == 0 {
+				body = be8(int64(c.Rng.Intn(20) - 2))
+			}
+			if j == nf-1 && c.Rng.Intn(2) == 0 {
+				body = []byte{0, 0, 2, byte(153 + c.Rng.Intn(3))}
+			}
+			fl := []byte{0, 1, 1, 1, 2, 10, 11}[c.Rng.Intn(7)]
+			n := uint32(len(body))
+			switch c.Rng.Intn(12) {
+			case 0:
+				n = []uint32{0, n + 1, n + 100, 1 << 20, 1<<20 + 1, 1 << 25}[c.Rng.Intn(6)]
+			case 1:
+				if len(body) > 0 {
+					body = body[:len(body)-1]
+				}
+			}
+			wire = append(wire, wireFrame(fl, n, body)...)
+		}
+		var apis []string
+		switch c.Rng.Intn(3) {
+		case 0:
+			apis = []string{"getfile", "recvn"}
+		case 1:
+			for k := 0; k <= nf; k++ {
+				apis = append(apis, []string{"recvn", "getsecret", "recvf"}[c.Rng.Intn(3)])
+			}
+		default:
+			apis = []string{"getsecret", "getfile"}
+		}
+		run(fmt.Sprintf("noend#%d", i), wire, apis...)
+	}
+	// an empty cleartext frame on a keyed stream; GetSecret turns crypto on for its frame
+	for _, apiName := range []string{"recvn", "getsecret", "getfile"} {
+		w := newWWorld(c, "noend-keyed-empty "+apiName, wireFrame(1, 0, nil), true)
+		w.api(apiName)
+		c.Count("wire-noend:keyed-empty")
+		add(w)
+	}
+}
+
+// decodeNested: ClassAd VALUES that make a recursive parser / renderer go deep or wide — nested
+// ads `[a=[a=[…]]]`, parenthesised and unary chains, long lists, long operator chains — as the
+// value of one attribute, alone and followed by a malformed expression (the error path renders the
+// partial ad). Small depths run in-process (compared with the model); large ones in the child
+// process, whose stack is limited (SetMaxStack 48 MiB): unbounded recursion is a dead process.
+func decodeNested(c *Ctx, cases *[]Case, childJobs *[]childJob) {
+	shape := func(kind string, d int) string {
+		switch kind {
+		case "nested-ad":
+			return strings.Repeat("[a=", d) + "1" + strings.Repeat("]", d)
+		case "parens":
+			return strings.Repeat("(", d) + "1" + strings.Repeat(")", d)
+		case "unary":
+			return strings.Repeat("-", d) + "1"
+		case "not":
+			return strings.Repeat("!", d) + "true"
+		case "list":
+			return "{" + strings.Repeat("1,", d) + "1}"
+		case "nested-list":
+			return strings.Repeat("{", d) + "1" + strings.Repeat("}", d)
+		case "chain":
+			return strings.Repeat("1+", d) + "1"
+		case "ternary":
+			return strings.Repeat("true?1:", d) + "0"
+		case "call":
+			return strings.Repeat("f(", d) + "1" + strings.Repeat(")", d)
+		case "unclosed":
+			return strings.Repeat("[a=", d)
+		}
+		return "1"
+	}
+	kinds := []string{"nested-ad", "parens", "unary", "not", "list", "nested-list", "chain", "ternary", "call", "unclosed"}
+	depths := []int{3, 40, 1000, c.Pick(30000, 150000)}
+	for _, kind := range kinds {
+		for _, d := range depths {
+			for _, tail := range []string{"", "bad"} {
+				for _, enc := range []bool{false, true} {
+					if enc && (d == 40 || tail == "bad" && d > 1000) {
+						continue
+					}
+					exprs := []dfield{fStr("A = " + shape(kind, d))}
+					if tail == "bad" {
+						exprs = append(exprs, fStr("novalue"))
+					}
+					fs := append([]dfield{fInt(int64(len(exprs)))}, exprs...)
+					fs = append(fs, fStr("Machine"), fStr(""))
+					b := serialize(fs, enc)
+					frames := chunkFrames(b, 64<<10)
+					for _, cp := range []int{0, 1 << 20} {
+						label := fmt.Sprintf("nested %s depth=%d tail=%q cap=%d enc=%s", kind, d, tail, cp, b01(enc))
+						if d > 1000 {
+							if cp != 0 && kind != "nested-ad" {
+								continue
+							}
+							*childJobs = append(*childJobs, childJob{Label: label, Kind: "adnest", Enc: enc, Frames: hexFrames(frames), InBytes: len(b), Api: fmt.Sprint(cp)})
+							c.Count("nested:child:" + kind)
+							continue
+						}
+						w := newDWorld(c, label, enc, enc, frames, 0)
+						w.allocFactor = 1024
+						w.opAd(cp)
+						w.opRest()
+						c.Count("nested:" + kind)
+						w.done(cases, true)
+					}
+				}
+			}
+		}
+	}
 }
 
 func wireFrame(flag byte, n uint32, body []byte) []byte {
@@ -1454,7 +1803,22 @@ func guardLeaf(c *Ctx, entry string, in string, f func()) {
 		}
 	}()
 	t0 := time.Now()
+	var m0, m1 runtime.MemStats
+	measure := len(in) >= 1024 // (short inputs: the fixed costs of the parsers dominate; panics and time still checked)
+	if measure {
+		runtime.ReadMemStats(&m0)
+	}
 	f()
+	if measure {
+		runtime.ReadMemStats(&m1)
+		// allocation in proportion to the text: a generous linear budget (per-separator slices,
+		// copies, maps), which a quadratic blow-up or a buffer sized from a number in the text exceeds
+		if a, lim := m1.TotalAlloc-m0.TotalAlloc, uint64(256*len(in)+4<<20); a > lim {
+			c13Violate(c, Violation{Property: "C13", Key: "C13:alloc:" + entry, What: fmt.Sprintf("%s allocated %d bytes for a text of %d bytes", entry, a, len(in)),
+				Ops: []string{entry + " " + strconv.Quote(clip(in, 200))}, Expected: fmt.Sprintf("≤ 256·len + 4 MiB = %d", lim), Observed: fmt.Sprint(a)})
+		}
+		c.Count("leaf:alloc-measured")
+	}
 	if d := time.Since(t0); d > 5*time.Second {
 		c13Violate(c, Violation{Property: "C13", Key: "C13:time:" + entry, What: fmt.Sprintf("%s took %v on %d bytes", entry, d, len(in)),
 			Ops: []string{entry + " " + strconv.Quote(clip(in, 200))}, Expected: "time linear in the input", Observed: d.String()})
@@ -1497,6 +1861,12 @@ func leafInputs(c *Ctx) []string {
 			b.WriteString(syms[c.Rng.Intn(len(syms))])
 		}
 		base = append(base, b.String())
+	}
+	// numeric fields a parser might size something from (ports, counts, version parts, cursors)
+	for _, num := range []string{"4294967296", "2147483648", "99999999999999999999", "-1", "1e9"} {
+		pad := strings.Repeat("x", 1100)
+		base = append(base, "<1.2.3.4:"+num+"?sock="+pad+">", "<1.2.3.4:5?ccbid="+num+"#"+num+"&sock="+pad+">", "$CondorVersion: "+num+"."+num+"."+num+" "+pad+" $",
+			num+" <a:1> "+num+" "+num+" "+pad, pad+"#"+num+"#"+num+"#[Encryption=\"YES\";]"+pad)
 	}
 	// long inputs: separators only / one long token (quadratic behaviour shows here)
 	for _, sym := range []string{"#", "]", "[", ";", "=", "&", ".", " ", "%", "A", "\"", "?", "1.", "sock=&"} {
@@ -1674,12 +2044,18 @@ type childJob struct {
 	Frames  []string `json:"frames"` // hex payload + "/0|1"
 	InBytes int      `json:"in_bytes"`
 	K       int      `json:"k"`
+	Api     string   `json:"api,omitempty"`    // kind "wire": recvn | getsecret | getfile | recvc | readmsg
+	Wire    string   `json:"wire,omitempty"`   // kind "wire": raw wire bytes (hex)
+	Expect  string   `json:"expect,omitempty"` // kind "wire": reply prefix the property demands ("" = none)
 }
 
 type childResult struct {
 	Reply string `json:"reply"`
 	Alloc uint64 `json:"alloc"`
 	Stack uint64 `json:"stack"` // growth of the memory in use by goroutine stacks
+	// kind "wire": what the in-process oracles of wworld.op recorded inside the child
+	Viol []Violation `json:"viol,omitempty"`
+	Op   string      `json:"op,omitempty"` // kind "adnest": the operation as finally logged (parser verdict filled in)
 }
 
 func hexFrames(fs []dframe) []string {
@@ -1725,7 +2101,7 @@ func runDecodeChild(c *Ctx) error {
 		j := jobs[i]
 		fmt.Fprintf(out, "START %d\n", i)
 		out.Flush()
-		var rep string
+		var rep, childOp string
 		var m0, m1 runtime.MemStats
 		runtime.ReadMemStats(&m0)
 		func() {
@@ -1742,6 +2118,23 @@ func runDecodeChild(c *Ctx) error {
 				} else {
 					w.opXKey()
 				}
+				rep = w.real[len(w.real)-1]
+			case "krb", "tok2", "tok1s", "tok3s", "ctb":
+				w := newDWorld(c, j.Label, j.Enc, false, unhexFrames(j.Frames), 1)
+				w.opSub(j.Kind)
+				rep = w.real[len(w.real)-1]
+			case "adnest":
+				w := newDWorld(c, j.Label, j.Enc, j.Enc, unhexFrames(j.Frames), 0)
+				w.allocFactor = 1024
+				runtime.ReadMemStats(&m0)
+				cp, _ := strconv.Atoi(j.Api)
+				w.opAd(cp)
+				rep = w.real[len(w.real)-1]
+				childOp = w.ops[len(w.ops)-1]
+			case "wire":
+				wire, _ := hex.DecodeString(j.Wire)
+				w := newWWorld(c, j.Label, wire, false)
+				w.api(j.Api)
 				rep = w.real[len(w.real)-1]
 			case "stack":
 				var wire []byte
@@ -1765,7 +2158,13 @@ func runDecodeChild(c *Ctx) error {
 		if m1.StackInuse > m0.StackInuse {
 			stk = m1.StackInuse - m0.StackInuse
 		}
-		b, _ := json.Marshal(childResult{Reply: rep, Alloc: m1.TotalAlloc - m0.TotalAlloc, Stack: stk})
+		cr := childResult{Reply: rep, Alloc: m1.TotalAlloc - m0.TotalAlloc, Stack: stk, Op: childOp}
+		if j.Kind == "wire" {
+			cr.Viol = append(cr.Viol, c.Res.Violations...)
+			c.Res.Violations = nil
+			c13Seen = map[string]int{}
+		}
+		b, _ := json.Marshal(cr)
 		fmt.Fprintf(out, "RESULT %d %s\n", i, b)
 		out.Flush()
 	}
@@ -1848,6 +2247,22 @@ func runChildJobs(c *Ctx, jobs []childJob, cases *[]Case) error {
 	for i, j := range jobs {
 		ops := []string{"# " + j.Label + " (child process: RLIMIT_AS 6 GiB, GOMEMLIMIT 4 GiB, max stack 48 MiB)", fmt.Sprintf("new %s 0", b01(j.Enc)), "frames " + strings.Join(payloadFrames(j.Frames), " "), j.Kind}
 		entry := map[string]string{"tls": "security.receiveMessage", "xkey": "security.exchangeKey", "stack": "stream.readNextFrame"}[j.Kind]
+		if j.Kind == "wire" {
+			wire, _ := hex.DecodeString(j.Wire)
+			ops = []string{ops[0], "wire 0 " + orc.Payload(wire), j.Api}
+			entry = wireEntry[j.Api]
+		}
+		if k, ok := subKinds[j.Kind]; ok {
+			entry = k.entry
+		}
+		if j.Kind == "adnest" {
+			entry = "message.GetClassAd"
+			if j.Api != "0" {
+				entry = "message.GetClassAdWithMaxSize"
+			}
+			ops[1] = fmt.Sprintf("new %s %s", b01(j.Enc), b01(j.Enc))
+			ops[3] = fmt.Sprintf("ad %s -", j.Api)
+		}
 		c.Res.Evaluations++
 		switch {
 		case fatal[i] != "":
@@ -1861,6 +2276,9 @@ func runChildJobs(c *Ctx, jobs []childJob, cases *[]Case) error {
 				c13Violate(c, Violation{Property: "C13", Key: "C13:panic:" + entry, What: fmt.Sprintf("%s panicked on peer-controlled input (%s)", entry, j.Label), Ops: ops, Expected: "an error", Observed: r.Reply})
 			}
 			lim := uint64(64*j.InBytes + 4<<20)
+			if j.Kind == "adnest" {
+				lim = uint64(1024*j.InBytes + 4<<20)
+			}
 			if j.Kind == "stack" {
 				lim = uint64(64*5*j.K + 4<<20)
 			}
@@ -1871,7 +2289,36 @@ func runChildJobs(c *Ctx, jobs []childJob, cases *[]Case) error {
 				c13Violate(c, Violation{Property: "C13", Key: "C13:stack:" + entry, What: fmt.Sprintf("%s: goroutine stack grew by %d bytes while reading %d empty partial frames (%d wire bytes): one stack frame per partial frame", entry, r.Stack, j.K, j.InBytes),
 					Ops: ops, Expected: "constant stack (≤ 4 MiB growth)", Observed: fmt.Sprint(r.Stack)})
 			}
-			if j.Kind != "stack" {
+			if j.Kind == "adnest" {
+				// recursion: the goroutine stack may grow with the nesting of the value, in proportion to
+				// the bytes received — not beyond
+				if lim := uint64(64*j.InBytes + 4<<20); r.Stack > lim {
+					c13Violate(c, Violation{Property: "C13", Key: "C13:stack:" + entry, What: fmt.Sprintf("%s: goroutine stack grew by %d bytes while decoding %d input bytes (%s)", entry, r.Stack, j.InBytes, j.Label), Ops: ops, Expected: fmt.Sprintf("≤ 64·input + 4 MiB = %d", lim), Observed: fmt.Sprint(r.Stack)})
+				}
+				rep := r.Reply
+				if strings.HasPrefix(rep, "err panic") {
+					rep = "err panic" + rep[strings.LastIndex(rep, " f="):]
+				}
+				if r.Op != "" {
+					ops[3] = r.Op
+				}
+				*cases = append(*cases, Case{Label: j.Label, Ops: ops[1:], Real: []string{"ok", "ok", rep}})
+			} else if j.Kind == "wire" {
+				for _, v := range r.Viol {
+					v.Ops = append([]string{ops[0]}, v.Ops...)
+					c13Violate(c, v)
+				}
+				if j.Expect != "" && !strings.HasPrefix(r.Reply, j.Expect) {
+					c13Violate(c, Violation{Property: "C13", Key: "C13:frame-limit:" + entry, What: fmt.Sprintf("%s did not refuse a frame header announcing more than %d bytes (%s)", entry, stream.MaxMessageSize, j.Label), Ops: ops, Expected: j.Expect, Observed: clip(r.Reply, 200)})
+				}
+				rep := r.Reply
+				if strings.HasPrefix(rep, "err panic") {
+					rep = "err panic"
+				}
+				*cases = append(*cases, Case{Label: j.Label, Ops: ops[1:], Real: []string{"ok", rep}})
+			} else if k, ok := subKinds[j.Kind]; ok && !k.model {
+				// no model counterpart: judged above (fatal / panic / allocation)
+			} else if j.Kind != "stack" {
 				rep := r.Reply
 				if strings.HasPrefix(rep, "err panic") {
 					rep = "err panic" + rep[strings.LastIndex(rep, " f="):]
@@ -1920,19 +2367,43 @@ func runDecode(c *Ctx) error {
 	c.Res.Rule = "every decoder entry point (typed values, capped and uncapped strings, SkipString, the ClassAd receivers GetClassAd / GetClassAdWithMaxSize / GetClassAdRaw / GetClassAdRawBody / SkipClassAdRaw incl. the in-band secret marker, handshake length-prefixed records receiveMessage / exchangeKey / getIDString / getToken, the frame readers on raw wire bytes, claim-id and session-info text, crypto-state blobs, the shared-port hand-off header, address / version / inherit / watch parsers) fed messages from the wire grammar with one field mutated (length and count fields from the catalogue −1, 0, ±1, 2^31−1, 2^31, 2^32+5, 2^40, 2^62, −2^63; missing terminators; dropped / inserted fields; secret marker; NULL-string marker), cut into frames at random points, truncated or left without end-of-message, in both string modes, over a counting mock stream, a real keyless stream and a real keyed stream; capped readers against 10–400× their cap; a malformed stream of random bytes; distinct by op-sequence hash; non-trivial = some field or the framing deviates from a valid message"
 	var cases []Case
 	var jobs []childJob
+	lap := time.Now()
+	timed := func(name string) {
+		c.Res.Distribution["ms:"+name] = int(time.Since(lap) / time.Millisecond)
+		lap = time.Now()
+	}
 	for i := 0; i < c.Pick(700, 80000); i++ {
 		decodeAdCase(c, i, &cases)
 	}
+	timed("ad")
 	for i := 0; i < c.Pick(500, 50000); i++ {
 		decodeTypedCase(c, i, &cases)
 	}
+	timed("typed")
 	decodeCatalogue(c, &cases)
+	timed("catalogue")
 	decodeOversize(c, &cases)
+	timed("oversize")
 	decodeBudget(c, &cases)
+	timed("budget")
 	decodeHandshake(c, &cases, &jobs)
+	timed("handshake")
 	decodeGarbage(c, &cases)
+	timed("garbage")
 	decodeWire(c, &cases)
+	timed("wire")
+	decodeWireNoEnd(c, &cases, &jobs)
+	timed("wire-noend")
+	if err := decodeHandshakeAds(c); err != nil {
+		return err
+	}
+	timed("handshake-ads")
+	decodeSubprotocols(c, &cases, &jobs)
+	timed("subprotocols")
+	decodeNested(c, &cases, &jobs)
+	timed("nested")
 	decodeLeaves(c, &cases)
+	timed("leaves")
 	// stack depth of the multi-frame reader
 	jobs = append(jobs, childJob{Label: "stack: 400000 empty partial frames then the end (2 MB on the wire)", Kind: "stack", K: 400000, InBytes: 5 * 400000})
 	if c.Thorough() {
@@ -1941,5 +2412,7 @@ func runDecode(c *Ctx) error {
 	if err := runChildJobs(c, jobs, &cases); err != nil {
 		return err
 	}
+	timed("child")
+	defer timed("oracle")
 	return diffBatch(c, "decode", cases, nil)
 }
